@@ -921,8 +921,10 @@ func (w *world) pickReturned(pp *pendingPick, out pickOut, keyed, refErr bool, R
 				}
 			}
 		default:
+			loadProp := "C02|C03" // an unknown key is routed like no key (C01: "after the UNBIND, K is routed like an unknown key")
 			if keyed && key != "" {
 				w.labels["unknown-key-pick"]++
+				loadProp = "C02|C03|C01"
 			}
 			mn := minInflight()
 			switch {
@@ -931,7 +933,7 @@ func (w *world) pickReturned(pp *pendingPick, out pickOut, keyed, refErr bool, R
 					w.fail("C03|C02", "A.pick.6a.grow", "%s: a channel was added although a READY channel is below the watermark (min load %d < %d) (%s)", what, mn, w.cfg.WM, w.describe())
 				}
 				if err != nil || !inSnap(placed) || w.slots[placed].inflight != mn {
-					w.fail("C02|C03", "A.pick.6a", "%s: min load %d < watermark %d: placed=%d err=%v snapshot=%v loads=%s", what, mn, w.cfg.WM, placed, err, p.snap, w.describe())
+					w.fail(loadProp, "A.pick.6a", "%s: min load %d < watermark %d: placed=%d err=%v snapshot=%v loads=%s", what, mn, w.cfg.WM, placed, err, p.snap, w.describe())
 				}
 				if len(p.snap) >= 2 {
 					w.labels["least-loaded-of-several"]++
@@ -951,7 +953,7 @@ func (w *world) pickReturned(pp *pendingPick, out pickOut, keyed, refErr bool, R
 				}
 			default:
 				if err != nil || !inSnap(placed) || w.slots[placed].inflight != mn {
-					w.fail("C02|C03", "A.pick.6d", "%s: saturated at maxSize: placed=%d err=%v snapshot=%v (%s)", what, placed, err, p.snap, w.describe())
+					w.fail(loadProp, "A.pick.6d", "%s: saturated at maxSize: placed=%d err=%v snapshot=%v (%s)", what, placed, err, p.snap, w.describe())
 				}
 				w.labels["saturated-at-max"]++
 			}
